@@ -96,10 +96,15 @@ class AbstractExcelInPython(ABC):
             case _:
                 raise self.ExcelInPythonException('unknown operator ' + operator)
 
+    @staticmethod
+    def _to_number(operand: Any) -> int | float:
+        # int() would cut off the fractional part of a float operand (1.5 > 1.2 must stay true)
+        return operand if isinstance(operand, float) else int(operand)
+
     def _compare(self, operator: str, left_operand: str | int | float | datetime.date | datetime.datetime,
                           right_operand: str | int | float | datetime.date | datetime.datetime) -> bool:
         try:
-            return self._by_operator(operator, int(left_operand), int(right_operand))
+            return self._by_operator(operator, self._to_number(left_operand), self._to_number(right_operand))
         except (ValueError, TypeError):
             try:
                 return self._by_operator(operator, float(left_operand), float(right_operand))
